@@ -9,7 +9,7 @@ Section Spec.
   Variable C : Type.
   Variable D : Type.
   Variable modify : kind -> D -> C -> C.
-  Variable react : list (kind * C) -> kind -> C.
+  Variable react : Z -> Z -> list (kind * C) -> kind -> C.
   Variable M : Type.
   Variable mix_nums : M -> list Z.
   Variable mixf : kind -> M -> list (Z * option C) -> C.
@@ -55,13 +55,26 @@ Section Spec.
   Definition sp_delete (opts : list del_opt) (S : sstore) : sstore :=
     fun k i => if named opts k i then None else S k i.
 
+  (* entries n+1..n_end of kind k become copies of entry n, if there is one *)
+  Definition sp_copies (S : sstore) (k : kind) (n n_end : Z) : sstore :=
+    match S k n with
+    | Some c => fun k' i => if kind_eqb k' k && ((n <? i) && (i <=? n_end)) then Some c else S k' i
+    | None => S
+    end.
+
   Definition sp_save1 (u : use_req) (res : kind -> C) (S : sstore) (s : kind * Z * Z) : sstore :=
     let k := fst (fst s) in
-    if mem_kind k savable_kinds && used_kind u k then sp_define S k (snd (fst s)) (snd s) (res k) else S.
+    if mem_kind k savable_kinds then
+      if used_kind u k then sp_define S k (snd (fst s)) (snd s) (res k)
+      else sp_copies S k (snd (fst s)) (snd s)
+    else S.
 
-  Definition sp_react (u : use_req) (sv : save_req) (S : sstore) : option sstore :=
+  Definition sp_react_core (tag cell : Z) (u : use_req) (sv : save_req) (S : sstore) : option sstore :=
     if use_missing u S then None
-    else Some (fold_left (sp_save1 u (react (used_of u S))) sv S).
+    else Some (fold_left (sp_save1 u (react tag cell (used_of u S))) sv S).
+
+  Definition sp_react (tag : Z) (u : use_req) (sv : save_req) (S : sstore) : option sstore :=
+    if reacts u then sp_react_core tag (-1) u sv S else Some S.
 
   Definition sp_present (S : sstore) (k : kind) (n : Z) : bool := is_some (S k n).
 
@@ -75,10 +88,10 @@ Section Spec.
   Definition sp_cell_save (S : sstore) (n : Z) : save_req :=
     (KSol, n, n) :: flat_map (fun k => if sp_present S k n then [(k, n, n)] else []) [KPP; KExch; KSurf; KGas; KSS].
 
-  Definition sp_run_cell (S : sstore) (n : Z) : sstore :=
+  Definition sp_run_cell (tag : Z) (S : sstore) (n : Z) : sstore :=
     if n <? 0 then S
     else if negb (sp_present S KSol n) && negb (sp_present S KMix n) then S
-    else match sp_react (sp_cell_use S n) (sp_cell_save S n) S with
+    else match sp_react_core tag n (sp_cell_use S n) (sp_cell_save S n) S with
          | Some S' => S'
          | None => S
          end.
@@ -92,12 +105,12 @@ Section Spec.
   Definition sp_step (stp : step C D M) (S : sstore) : sresult :=
     let S1 := fold_left sp_read (s_reads stp) S in
     match (match s_react stp with
-           | Some (u, sv) => sp_react u sv S1
+           | Some (u, sv) => sp_react (s_tag stp) u sv S1
            | None => Some S1
            end) with
     | None => {| sr_store := S1; sr_dump := S1; sr_stopped := true |}
     | Some S2 =>
-        let S3 := fold_left sp_run_cell (s_cells stp) S2 in
+        let S3 := fold_left (sp_run_cell (s_tag stp)) (s_cells stp) S2 in
         let S4 := fold_left sp_mix (s_mixes stp) S3 in
         let S5 := sp_copy (s_copies stp) S4 in
         let S6 := match s_delete stp with Some opts => sp_delete opts S5 | None => S5 end in
@@ -217,12 +230,44 @@ Section Spec.
   Qed.
 
   (** USE / SAVE, RUN_CELLS *)
+  Lemma mlook_range_copies (m : emap) n n_end i :
+      mlook (rxn_copies m n n_end) i
+      = match mlook m n with
+        | Some c => if (n <? i) && (i <=? n_end) then Some c else mlook m i
+        | None => mlook m i
+        end.
+  Proof.
+    unfold mlook, rxn_copies.
+    destruct (n_end <=? n) eqn:Eg.
+    - apply Z.leb_le in Eg. destruct (zfind n m); simpl; auto.
+      destruct (Z.ltb_spec n i); simpl; auto.
+      destruct (Z.leb_spec i n_end); simpl; auto. lia.
+    - destruct (zfind n m) as [e|] eqn:Ef; simpl; auto.
+      rewrite (zfind_fold_ins (fun j => mkEnt j (e_body e))). rewrite zmem_zrange.
+      destruct (Z.leb_spec (n + 1) i); destruct (Z.ltb_spec n i); simpl; try lia; auto.
+      destruct (i <=? n_end); reflexivity.
+  Qed.
+
+  Lemma look_range_copies (st : store) k n n_end :
+      look_of (supd st k (rxn_copies (st k) n n_end)) = sp_copies (look_of st) k n n_end.
+  Proof.
+    rewrite look_supd. apply functional_extensionality. intro k'. apply functional_extensionality. intro i.
+    unfold sp_copies.
+    destruct (kind_eqb k' k) eqn:E.
+    - apply kind_eqb_eq in E. subst k'. rewrite mlook_range_copies.
+      unfold Store.look_of, mlook. destruct (zfind n (st k)); simpl; auto.
+      rewrite kind_eqb_refl. reflexivity.
+    - unfold Store.look_of at 2. destruct (option_map (@e_body C) (zfind n (st k))); auto. rewrite E. reflexivity.
+  Qed.
+
   Lemma look_save1 u res (st : store) s :
       look_of (save1 (hand_prims C) u res st s) = sp_save1 u res (look_of st) s.
   Proof.
     unfold save1, sp_save1. cbn [p_copies hand_prims].
-    destruct (mem_kind (fst (fst s)) savable_kinds && used_kind u (fst (fst s))); auto.
-    apply look_define.
+    destruct (mem_kind (fst (fst s)) savable_kinds); auto.
+    destruct (used_kind u (fst (fst s))).
+    - apply look_define.
+    - apply look_range_copies.
   Qed.
 
   Lemma look_saves u res sv : forall (st : store),
@@ -232,12 +277,18 @@ Section Spec.
     rewrite IH. rewrite look_save1. reflexivity.
   Qed.
 
-  Lemma look_react u sv (st : store) :
-      option_map look_of (do_react react (hand_prims C) u sv st) = sp_react u sv (look_of st).
+  Lemma look_react_core tag cell u sv (st : store) :
+      option_map look_of (do_react_core react (hand_prims C) tag cell u sv st) = sp_react_core tag cell u sv (look_of st).
   Proof.
-    unfold do_react, sp_react.
+    unfold do_react_core, sp_react_core.
     destruct (use_missing u (look_of st)); simpl; auto.
     rewrite look_saves. reflexivity.
+  Qed.
+
+  Lemma look_react tag u sv (st : store) :
+      option_map look_of (do_react react (hand_prims C) tag u sv st) = sp_react tag u sv (look_of st).
+  Proof.
+    unfold do_react, sp_react. destruct (reacts u); [apply look_react_core | reflexivity].
   Qed.
 
   Lemma present_look (st : store) k n : present st k n = sp_present (look_of st) k n.
@@ -252,16 +303,16 @@ Section Spec.
   Lemma cell_save_look (st : store) n : cell_save st n = sp_cell_save (look_of st) n.
   Proof. unfold cell_save, sp_cell_save. simpl. rewrite !present_look. reflexivity. Qed.
 
-  Lemma look_run_cell (st : store) n :
-      look_of (run_cell react (hand_prims C) st n) = sp_run_cell (look_of st) n.
+  Lemma look_run_cell tag (st : store) n :
+      look_of (run_cell react (hand_prims C) tag st n) = sp_run_cell tag (look_of st) n.
   Proof.
     unfold run_cell, sp_run_cell.
     destruct (n <? 0); auto.
     rewrite !present_look.
     destruct (negb (sp_present (look_of st) KSol n) && negb (sp_present (look_of st) KMix n)); auto.
     rewrite <- cell_use_look, <- cell_save_look.
-    rewrite <- look_react.
-    destruct (do_react react (hand_prims C) (cell_use st n) (cell_save st n) st); reflexivity.
+    rewrite <- look_react_core.
+    destruct (do_react_core react (hand_prims C) tag n (cell_use st n) (cell_save st n) st); reflexivity.
   Qed.
 
   Lemma look_mix (st : store) r :
@@ -295,32 +346,32 @@ Section Spec.
                | Some opts => p_delete_ents (hand_prims C) opts
                      (p_copy_ents (hand_prims C) (s_copies stp)
                         (fold_left (do_mix mix_nums mixf (hand_prims C)) (s_mixes stp)
-                           (fold_left (run_cell react (hand_prims C)) (s_cells stp) st2)))
+                           (fold_left (run_cell react (hand_prims C) (s_tag stp)) (s_cells stp) st2)))
                | None => p_copy_ents (hand_prims C) (s_copies stp)
                      (fold_left (do_mix mix_nums mixf (hand_prims C)) (s_mixes stp)
-                        (fold_left (run_cell react (hand_prims C)) (s_cells stp) st2))
+                        (fold_left (run_cell react (hand_prims C) (s_tag stp)) (s_cells stp) st2))
                end)
       = match s_delete stp with
         | Some opts => sp_delete opts (sp_copy (s_copies stp)
-                          (fold_left sp_mix (s_mixes stp) (fold_left sp_run_cell (s_cells stp) (look_of st2))))
+                          (fold_left sp_mix (s_mixes stp) (fold_left (sp_run_cell (s_tag stp)) (s_cells stp) (look_of st2))))
         | None => sp_copy (s_copies stp)
-                          (fold_left sp_mix (s_mixes stp) (fold_left sp_run_cell (s_cells stp) (look_of st2)))
+                          (fold_left sp_mix (s_mixes stp) (fold_left (sp_run_cell (s_tag stp)) (s_cells stp) (look_of st2)))
         end
       /\ look_of (p_copy_ents (hand_prims C) (s_copies stp)
                      (fold_left (do_mix mix_nums mixf (hand_prims C)) (s_mixes stp)
-                        (fold_left (run_cell react (hand_prims C)) (s_cells stp) st2)))
+                        (fold_left (run_cell react (hand_prims C) (s_tag stp)) (s_cells stp) st2)))
          = sp_copy (s_copies stp)
-                          (fold_left sp_mix (s_mixes stp) (fold_left sp_run_cell (s_cells stp) (look_of st2)))) as Htail.
+                          (fold_left sp_mix (s_mixes stp) (fold_left (sp_run_cell (s_tag stp)) (s_cells stp) (look_of st2)))) as Htail.
     { intro st2.
-      rewrite <- (look_fold _ sp_run_cell look_run_cell).
+      rewrite <- (look_fold _ (sp_run_cell (s_tag stp)) (look_run_cell (s_tag stp))).
       rewrite <- (look_fold _ sp_mix look_mix).
       rewrite <- look_copy.
       destruct (s_delete stp) as [opts|]; cbn [p_delete_ents p_copy_ents hand_prims].
       + rewrite <- look_delete. auto.
       + auto. }
     destruct (s_react stp) as [[u sv]|].
-    - pose proof (look_react u sv st1) as Hr.
-      destruct (do_react react (hand_prims C) u sv st1) as [st2|]; simpl in Hr; rewrite <- Hr; cbn [r_store r_dump r_stopped sr_store sr_dump sr_stopped].
+    - pose proof (look_react (s_tag stp) u sv st1) as Hr.
+      destruct (do_react react (hand_prims C) (s_tag stp) u sv st1) as [st2|]; simpl in Hr; rewrite <- Hr; cbn [r_store r_dump r_stopped sr_store sr_dump sr_stopped].
       + destruct (Htail st2) as [H1 H2]. auto.
       + auto.
     - cbn [r_store r_dump r_stopped sr_store sr_dump sr_stopped].
@@ -337,12 +388,14 @@ End Spec.
 
 Arguments sp_step {C D} modify react {M} mix_nums mixf stp S.
 Arguments sp_run {C D} modify react {M} mix_nums mixf steps S.
-Arguments sp_react {C} react u sv S.
+Arguments sp_react {C} react tag u sv S.
+Arguments sp_react_core {C} react tag cell u sv S.
 Arguments sp_read {C D} modify S r.
 Arguments sp_copy {C} opts S.
 Arguments sp_delete {C} opts S.
 Arguments sp_save1 {C} u res S s.
 Arguments sp_define {C} S k n n_end c.
+Arguments sp_copies {C} S k n n_end.
 Arguments sm_copy1 {C} f t.
 Arguments copy_inner {C} src e l m i.
 Arguments sr_store {C}. Arguments sr_dump {C}. Arguments sr_stopped {C}.
